@@ -12,6 +12,7 @@ pub mod c18;
 pub mod c12;
 pub mod c13;
 pub mod c14;
+pub mod c15;
 pub mod c20;
 
 use crate::run::Prop;
@@ -31,6 +32,7 @@ pub fn by_id(id: &str) -> Option<&'static dyn Prop> {
         "C12" => &c12::C12,
         "C13" => &c13::C13,
         "C14" => &c14::C14,
+        "C15" => &c15::C15,
         "C20" => &c20::C20,
         _ => return None,
     })
